@@ -111,6 +111,20 @@ static void helpers(const char *tag, const GeneratorProfilePtr &p)
     printf("HELPER %s acoth %s\n", tag, hx::H(p->acothFunctionString()).c_str());
 }
 
+static void methods(const GeneratorProfilePtr &p)
+{
+    auto M = [&](const char *k, int o, int e, const std::string &i, const std::string &m) { printf("METHOD %s %d %d %s %s\n", k, o, e, hx::H(i).c_str(), hx::H(m).c_str()); };
+    for (int o = 0; o < 2; ++o) for (int e = 0; e < 2; ++e) {
+        M("initialiseVariables", o, e, p->interfaceInitialiseVariablesMethodString(o, e), p->implementationInitialiseVariablesMethodString(o, e));
+        M("computeVariables", o, e, p->interfaceComputeVariablesMethodString(o, e), p->implementationComputeVariablesMethodString(o, e));
+    }
+    for (int e = 0; e < 2; ++e) M("computeRates", 1, e, p->interfaceComputeRatesMethodString(e), p->implementationComputeRatesMethodString(e));
+    M("computeComputedConstants", 2, 2, p->interfaceComputeComputedConstantsMethodString(), p->implementationComputeComputedConstantsMethodString());
+    M("createStatesArray", 1, 2, p->interfaceCreateStatesArrayMethodString(), p->implementationCreateStatesArrayMethodString());
+    M("createVariablesArray", 2, 2, p->interfaceCreateVariablesArrayMethodString(), p->implementationCreateVariablesArrayMethodString());
+    M("deleteArray", 2, 2, p->interfaceDeleteArrayMethodString(), p->implementationDeleteArrayMethodString());
+}
+
 int main(int argc, char **argv)
 {
     auto pc = GeneratorProfile::create(GeneratorProfile::Profile::C);
@@ -118,6 +132,10 @@ int main(int argc, char **argv)
     if (argc > 1 && std::string(argv[1]) == "profile") {
         profile("C", pc);
         profile("PY", pp);
+        return 0;
+    }
+    if (argc > 1 && std::string(argv[1]) == "methods") {
+        methods(pc);
         return 0;
     }
     if (argc > 1 && std::string(argv[1]) == "helpers") {
